@@ -243,7 +243,7 @@ column `j` reads as the `toD` rendering of the logical value the documented mapp
 (`cols` as in `C06_closure_decode`: `interpRow ext fields xs[i]` is the struct of the `i`-th column entries).
 Every tracing option.  The reader-side preconditions `Read.new … = ok` and `utf8Ok` of `read_any_decode` are no longer
 hypotheses: they are derived for the built arrays (`Props.C03.toMarrow_readAny_partial`: `wf_new` with
-`fromSamples_readable`, `wf_utf8`) from `C03_wf'`, whose input-side hypotheses appear instead — `hext` (`ExtOK`: the external
+`fromSamples_readable`, `wf_utf8`) from `C03_wfS'`, whose input-side hypotheses appear instead — `hext` (`ExtOK`: the external
 chrono parsers return values in range; a theorem for the codec models, `Props.C03.codecExt_ok`) and `hval` (`SValOK`: f32 /
 f64 / integer calls carry values of their width; implied by `SVal.typed`).
 PARTIAL — what remains: `hphys`, the size precondition `Read.physical` (the value count of a dictionary column fits `i64`):
